@@ -33,11 +33,12 @@ pub const K0: u64 = 128 * 1024;
 //    "a fixed multiple" is a V9 packet that decodes ~65 000 one-byte records and is then
 //    discarded because a later flowset fails: the same ~660-720 bytes per input byte as the
 //    result would have had, with an empty result (family F9 below exercises exactly this).
-//    K1 = 1200 covers that model with a 1.7x margin and is 27x the observed maximum; the
-//    first calibration used K1 = 2700, which let a seeded 2540x amplification (64 KiB
+//    K1 = 2000 covers that model (measured 669-705 with family F9) with a 2.8x margin, so a
+//    benign change that doubles the per-record footprint still passes; the first
+//    calibration used K1 = 2700, which let a seeded 2540x amplification (64 KiB
 //    pre-allocation per 26-byte IPFIX message, seeded/C15-a) pass - see DESIGN 9.5.
 //  * K2: alloc/result is 2-4 for kept results (vector doubling, intermediate strings); 16 = 4x.
-pub const K1: u64 = 1200;
+pub const K1: u64 = 2000;
 pub const K2: u64 = 16;
 pub const K3: u64 = 2700;
 
